@@ -18,6 +18,7 @@ pub struct HistCfg {
     pub hard_exit: bool,
     pub light: bool,
     pub sweep_every: usize,
+    pub allow_stale: bool,
 }
 
 #[derive(Clone, Debug, Default)]
@@ -111,7 +112,7 @@ pub fn measure_value_offset() -> usize {
 pub fn run_history(cfg: &HistCfg, gen: &mut dyn FnMut(&World) -> Option<Op>, max_ops: usize) -> HistResult {
     // fresh world
     world::with(|w| {
-        *w = World::new(Cfg { class: cfg.class, check_links: cfg.check_links, check_mem: cfg.check_mem, log_cap: 600, hard_exit: cfg.hard_exit, light: cfg.light, sweep_every: cfg.sweep_every });
+        *w = World::new(Cfg { class: cfg.class, check_links: cfg.check_links, check_mem: cfg.check_mem, log_cap: 600, hard_exit: cfg.hard_exit, light: cfg.light, sweep_every: cfg.sweep_every, allow_stale: cfg.allow_stale || cfg.class == Class::Elide });
         w.value_offset = cfg.value_offset;
     });
     alloc::reset_lib_accounting();
